@@ -35,6 +35,7 @@ ASSUMPTIONS = [
 FLOORS = {'probes': 2000, 'name_probes': 20,
           'probes_after_reassignment': 500, 'derived_models': 5, 'narrow_extracts': 2,
           'switched_chain_evaluations': 100,
+          'whole_row_column_evaluations': 40,
           'reassignments_xlcell': 10,
           'failing_evaluations_before_reassignment': 20}
 ANCHOR_FUNCS = {
@@ -553,6 +554,10 @@ def run(ctx):
         numeric = [k for k, v in cells.items()
                    if isinstance(v, (int, float)) and not isinstance(v, bool)]
         changed = rng.sample(numeric, min(len(numeric), 5))
+        # cells that carry a defined name are (also) re-assigned through it
+        name_of = {(t[1], t[2], t[3]): nm for nm, t in names.items()
+                   if t[0] == 'ref' and nm in model.defined_names}
+        changed += [k for k in name_of if k in numeric and k not in changed]
         try:
             from xlcalculator import xltypes
             routes = []
@@ -565,7 +570,11 @@ def run(ctx):
                 v = cells[k] * 2 + 0.25
                 route = fixed or rng.choice(all_routes)
                 target = build.addr(k)
-                if 'XLCell' in route:
+                if k in name_of and rng.random() < 0.8:
+                    route = route.split(',')[0] + ', defined name'
+                    target = name_of[k]
+                    ctx.event('reassignments_by_name')
+                elif 'XLCell' in route:
                     target = xltypes.XLCell(target, None)
                 (ev if route.startswith('evaluator') else
                  model).set_cell_value(target, v)
@@ -600,6 +609,70 @@ def run(ctx):
                          {'name': nm, 'target': build.name_target(target),
                           'observed': got, 'reference': want[1]}, kf=kf,
                          monitor='probe-value', group='evaluate-name')
+    # ---- whole rows and whole columns (2:2, $3:$3, A:A): the reference means
+    # the row / column, also for cells that get their first value after the
+    # model was compiled (a little beyond what the sheet used until then) ------
+    if ctx.shard in (0, 1, 2, 3, 4, 5) or thorough:
+        for round_ in range(4 if thorough else 1):
+            data_s = rng.choice(['Rows', 'My Data', '2024'])
+            qs = ref.quote_sheet(data_s)
+            ncols = rng.randint(2, 5)
+            d = {}
+            for c in range(1, ncols + 1):
+                d[f'{data_s}!{ref.col_letters(c)}2'] = c * 1.5
+                d[f'{data_s}!{ref.col_letters(c)}3'] = c * 10
+            for r in (5, 6, 7):
+                d[f'{data_s}!A{r}'] = r * 100
+            forms = {'A1': f'=SUM({qs}!2:2)', 'A2': f'=MAX({qs}!3:3)',
+                     'A4': f'=SUM({qs}!$2:$3)'}
+            if ctx.shard % 3 == 0:
+                forms['A3'] = f'=SUM({qs}!A:A)'     # (a million cells: slow)
+            for k_, f_ in forms.items():
+                d[f'Calc!{k_}'] = f_
+            try:
+                ev_ = Evaluator(subject.compile_dict(d, default_sheet='Calc'))
+            except Exception as e:  # noqa
+                ctx.fail(f'workbook with whole-row references raised {e!r}',
+                         {'cells': d}, monitor='construction',
+                         group='whole-rows-build')
+                continue
+            state = {k_: v for k_, v in d.items() if not str(v).startswith('=')}
+
+            def expect():
+                row = lambda r: [v for k_, v in state.items()   # noqa
+                                 if k_.startswith(data_s + '!') and
+                                 k_.split('!')[1].lstrip('ABCDEFGHIJ') == str(r)]
+                col_a = [v for k_, v in state.items()
+                         if k_.startswith(data_s + '!A')]
+                return {'A1': sum(row(2)), 'A2': max(row(3)),
+                        'A3': sum(col_a), 'A4': sum(row(2)) + sum(row(3)),
+                        'A5': sum(row(2)) + sum(col_a)}
+            for step in range(3):
+                if step:
+                    # a cell one to three columns / rows beyond the used area
+                    far_c = ref.col_letters(ncols + rng.randint(1, 3))
+                    a_ = rng.choice([f'{data_s}!{far_c}2', f'{data_s}!{far_c}3',
+                                     f'{data_s}!A{8 + rng.randint(0, 2)}',
+                                     f'{data_s}!A2'])
+                    v_ = float(rng.randint(1000, 9000))
+                    ev_.set_cell_value(a_, v_)
+                    state[a_] = v_
+                want = expect()
+                for k_ in forms:
+                    got = subject.outcome_of(
+                        lambda: ev_.evaluate(f'Calc!{k_}'))
+                    ctx.event('whole_row_column_evaluations')
+                    ctx.case(('whole-row-col', k_, step, ncols))
+                    if got != ('value', ('num', float(want[k_]))):
+                        ctx.fail(f'{forms[k_]} after {step} cells were '
+                                 f'assigned beyond the area used at compile '
+                                 f'time (contents now {state}): observed '
+                                 f'{got}, expected {float(want[k_])}',
+                                 {'formula': forms[k_], 'cells': state,
+                                  'observed': got,
+                                  'reference': float(want[k_])},
+                                 monitor='probe-value',
+                                 group=f'whole-row-col:{k_}:{min(step, 1)}')
     ctx.event('range_evals_traced', tracer.range_evals)
     ctx.event('cross_sheet_requests_traced', tracer.cross_sheet)
     ctx.event('deref_requests_traced', tracer.requests)
